@@ -202,9 +202,11 @@ def fingerprint(loop, objs, extra=()):
     kern = loop.kern
     netq = tuple(sorted((round(t - now, 6), 'fn' if callable(it) else it[0],
                          len(it[1]) if (not callable(it) and it[0] == 'data') else 0) for t, _, s, it in kern.q))
-    rxq = tuple(sorted((s.kind, tuple((i[0], len(i[1]) if i[0] == 'data' else 0) for i in s.rx))
-                       for s in kern.socks.values()))
-    return h((tuple(parts), tasks, ready, sched, netq, rxq, len(kern.socks), py_stack(), extra))
+    # only descriptors registered with the current loop's selector can influence the future (a socket whose
+    # transport belongs to a closed loop is dead weight until it is garbage collected)
+    live = [s for fd, s in kern.socks.items() if fd in kern.keys]
+    rxq = tuple(sorted((s.kind, tuple((i[0], len(i[1]) if i[0] == 'data' else 0) for i in s.rx)) for s in live))
+    return h((tuple(parts), tasks, ready, sched, netq, rxq, len(live), py_stack(), extra))
 
 
 # ------------------------------------------------------------------ parallel driver
